@@ -13,6 +13,7 @@ import (
 	"time"
 
 	kafka "github.com/segmentio/kafka-go"
+	"github.com/segmentio/kafka-go/protocol"
 
 	"kvharness/internal/muxfake"
 )
@@ -271,6 +272,84 @@ func bytesCases(r *rand.Rand, thorough bool) {
 			opl = strings.Join(ops, ",")
 		}
 		fmt.Fprintf(out, "bb %d %d %d %s %s\t%s\n", ver, offset, declared, hexOr(body), opl, bytesCase(ver, offset, declared, body, ops))
+	}
+}
+
+// recordSetBytes renders records as a version-`ver` record set (v1 messages or a v2 record batch), optionally
+// gzip-compressed, with kafka-go's own writer, and returns the bytes of the set without its size prefix.
+func recordSetBytes(ver int8, base int64, gz bool, values [][]byte) []byte {
+	recs := make([]protocol.Record, len(values))
+	for i, v := range values {
+		recs[i] = protocol.Record{Offset: base + int64(i), Time: time.UnixMilli(1000), Value: protocol.NewBytes(v)}
+	}
+	rs := protocol.RecordSet{Version: ver, Records: protocol.NewRecordReader(recs...)}
+	if gz {
+		rs.Attributes = protocol.Gzip
+	}
+	var b bytes.Buffer
+	if _, err := rs.WriteTo(&b); err != nil || b.Len() < 4 {
+		return nil
+	}
+	return b.Bytes()[4:]
+}
+
+// consumedCases: Fetch responses on the paths Model/BatchBytes does not spell out — v2 record batches, gzip
+// batches, gzip wrapper messages, several of them in one response, truncated, followed by other bytes.  No model of
+// the results here: the line carries what was observed and the oracle applies the conclusion of
+// `wire_discipline_consumes_frame` — a kept Conn consumed exactly the declared frame.
+func consumedCases(r *rand.Rand, thorough bool) {
+	n := 80
+	if thorough {
+		n = 800
+	}
+	for i := 0; i < n; i++ {
+		ver := []int16{2, 5, 10}[r.Intn(3)]
+		offset := int64(r.Intn(40))
+		var set []byte
+		o := offset
+		for k := 1 + r.Intn(3); k > 0; k-- {
+			nv := 1 + r.Intn(3)
+			vals := make([][]byte, nv)
+			for j := range vals {
+				vals[j] = gen1(r, 1+r.Intn(30))
+			}
+			rv := int8(1 + r.Intn(2))
+			part := recordSetBytes(rv, o, r.Intn(2) == 0, vals)
+			if part == nil {
+				continue
+			}
+			set = append(set, part...)
+			o += int64(nv)
+		}
+		declaredSet := len(set)
+		var tail []byte
+		switch r.Intn(6) {
+		case 0:
+			if len(set) > 0 {
+				set = set[:r.Intn(len(set))]
+				declaredSet = len(set)
+			}
+		case 1, 2:
+			tail = gen1(r, 1+r.Intn(12))
+		}
+		body := append(fetchHead(ver, 0, offset+100, declaredSet), set...)
+		declared := len(body)
+		body = append(body, tail...)
+		var ops []string
+		for k := r.Intn(5); k > 0; k-- {
+			if r.Intn(2) == 0 {
+				ops = append(ops, "rm")
+			} else {
+				ops = append(ops, fmt.Sprintf("rd%d", []int{0, 2, 7, 64}[r.Intn(4)]))
+			}
+		}
+		opl := "-"
+		if len(ops) > 0 {
+			opl = strings.Join(ops, ",")
+		}
+		res := bytesCase(ver, offset, declared, body, ops)
+		f := strings.Split(res, ";")
+		fmt.Fprintf(out, "bbc %d %d %d %s %s\t%s;%s\n", ver, offset, declared, hexOr(body), opl, f[len(f)-2], f[len(f)-1])
 	}
 }
 
